@@ -149,6 +149,105 @@ Proof.
   rewrite H, H'. split; apply Derivable_mono; intros x Hx; apply Heq; exact Hx.
 Qed.
 
+(* ------------------------------------------------------------------ the finer, state-dependent side condition *)
+Lemma pair_mem_In : forall e l, pair_mem e l = true <-> In e l.
+Proof.
+  intros [d c] l. unfold pair_mem. rewrite existsb_exists. split.
+  - intros [[d' c'] [Hin H]]. cbn [fst snd] in H. apply andb_true_iff in H. destruct H as [H1 H2].
+    apply N.eqb_eq in H1. apply N.eqb_eq in H2. subst. exact Hin.
+  - intro H. exists (d, c). split; [exact H|]. cbn [fst snd]. rewrite !N.eqb_refl. reflexivity.
+Qed.
+
+Lemma safe_b_sound : forall st t, safe_b st t = true -> no_old_transport st t.
+Proof.
+  intros st t H d c r xs Hdc Hn Hin. unfold safe_b in H. rewrite negb_true_iff in H.
+  assert (Ht : transports_old st t = true); [|congruence].
+  unfold transports_old. apply existsb_exists. exists (d, c). split; [exact Hdc|]. apply andb_true_iff. split.
+  - rewrite negb_true_iff. destruct (pair_mem (d, c) (f_edges st)) eqn:E; [|reflexivity].
+    apply pair_mem_In in E. contradiction.
+  - apply existsb_exists. exists (r, d :: xs). split; [exact Hin|]. unfold at_model. cbn [snd fst]. apply N.eqb_refl.
+Qed.
+
+Lemma f_run_timely : forall n p h F st st', wf_program p = true -> wf_members p = true -> no_mor_concl p ->
+  Inv p F st -> timely_from n p h st = true -> f_run n p h st = Some st' ->
+  Inv p (F ++ facts_of h) st' /\ (ends_with_close h -> Final p (F ++ facts_of h) st').
+Proof.
+  intros n p. induction h as [|[t|] h IH]; intros F st st' Hwf Hwm Hnm HI Hh Hrun; cbn [f_run facts_of flat_map timely_from] in *.
+  - inversion Hrun; subst st'. rewrite app_nil_r. split; [exact HI|]. intros [h' E]. destruct h'; discriminate.
+  - apply andb_true_iff in Hh. destruct Hh as [Ht Hh].
+    assert (HI' : Inv p (F ++ [t]) (f_insert p st t)) by (apply insert_inv_gen; [exact HI | apply safe_b_sound; exact Ht]).
+    destruct (IH _ _ _ Hwf Hwm Hnm HI' Hh Hrun) as [H1 H2]. cbn [app]. rewrite <- app_assoc in H1, H2. cbn [app] in H1, H2.
+    split; [exact H1|]. intros [h' E]. apply H2. destruct h' as [|c h']; cbn [app] in E; [discriminate|].
+    injection E as _ E2. exists h'. exact E2.
+  - destruct (f_close n p st) as [st1|] eqn:Ec; [|discriminate].
+    destruct (f_close_inv _ _ _ _ _ Hwf Hwm Hnm HI Ec) as [HI1 HF1].
+    destruct (IH _ _ _ Hwf Hwm Hnm HI1 Hh Hrun) as [H1 H2]. cbn [app]. split; [exact H1|].
+    intros [h' E]. destruct h' as [|c h']; cbn [app] in E.
+    + inversion E; subst h. cbn [f_run] in Hrun. inversion Hrun; subst st'. cbn [facts_of flat_map]. rewrite app_nil_r. exact HF1.
+    + injection E as _ E2. apply H2. exists h'. exact E2.
+Qed.
+
+Theorem faithful_final_timely : forall n p h V, wf_program p = true -> wf_members p = true ->
+  timely n p h = true -> ends_with_close h -> faithful_close n p h = Some V ->
+  Closed p V /\ forall t, In t V <-> Derivable p (facts_of h) t.
+Proof.
+  intros n p h V Hwf Hwm He Hend Hf. unfold faithful_close in Hf.
+  destruct (f_run n p h f_empty) as [st|] eqn:Er; [|discriminate]. inversion Hf; subst V. clear Hf.
+  unfold timely in He. apply andb_true_iff in He. destruct He as [He1 He2]. rewrite negb_true_iff in He1.
+  destruct (f_run_timely _ _ _ _ _ _ Hwf Hwm (concludes_mor_false _ He1) (Inv_empty p Hwf) He2 Er) as [_ H].
+  exact (H Hend).
+Qed.
+
+Theorem faithful_eq_spec_timely : forall n n' p h V S, wf_program p = true -> wf_members p = true ->
+  timely n p h = true -> ends_with_close h ->
+  faithful_close n p h = Some V -> spec_run n' p h [] = Some S -> equiv_f V S.
+Proof.
+  intros n n' p h V S Hwf Hwm He Hend Hf Hs t.
+  destruct (faithful_final_timely _ _ _ _ Hwf Hwm He Hend Hf) as [_ H]. rewrite H.
+  symmetry. apply (spec_run_lfp _ _ _ _ Hwf Hend Hs).
+Qed.
+
+(* early_morphisms is an instance of timely *)
+Lemma safe_b_no_old : forall st t, all_old st = [] -> safe_b st t = true.
+Proof.
+  intros st t H. unfold safe_b, transports_old. rewrite negb_true_iff. rewrite H.
+  induction (edges ((g_new st ++ [t]) ++ g_old st)) as [|e l IH]; [reflexivity|].
+  cbn [existsb] in *. rewrite IH. rewrite andb_false_r. reflexivity.
+Qed.
+
+Lemma safe_b_non_mor : forall st t, is_mor t = false -> safe_b st t = true.
+Proof.
+  intros st t H. unfold safe_b, transports_old. rewrite negb_true_iff.
+  destruct (existsb _ (edges ((g_new st ++ [t]) ++ g_old st))) eqn:E; [|reflexivity]. exfalso.
+  apply existsb_exists in E. destruct E as [e [He H2]]. apply andb_true_iff in H2. destruct H2 as [H2 _].
+  rewrite negb_true_iff in H2.
+  assert (Hin : In e (f_edges st)).
+  { unfold f_edges. apply (edges_add_non_mor _ t); [exact H|]. eapply edges_incl; [|exact He].
+    intros y Hy. rewrite !in_app_iff in *. cbn [In]. tauto. }
+  apply pair_mem_In in Hin. congruence.
+Qed.
+
+Lemma timely_after : forall n p h st, no_mor_facts h = true -> timely_from n p h st = true.
+Proof.
+  intros n p. induction h as [|[t|] h IH]; intros st H; cbn [timely_from no_mor_facts] in *; [reflexivity| |].
+  - apply andb_true_iff in H. destruct H as [H1 H2]. rewrite negb_true_iff in H1. rewrite is_mor_fact_eq in H1.
+    rewrite (safe_b_non_mor _ _ H1). cbn [andb]. apply IH. exact H2.
+  - destruct (f_close n p st); [apply IH; exact H | reflexivity].
+Qed.
+
+Lemma timely_before : forall n p h st, all_old st = [] -> early_morphisms_h h = true -> timely_from n p h st = true.
+Proof.
+  intros n p. induction h as [|[t|] h IH]; intros st Ha H; cbn [timely_from early_morphisms_h] in *; [reflexivity| |].
+  - rewrite (safe_b_no_old _ t Ha). cbn [andb]. apply IH; [rewrite f_insert_all_old; exact Ha | exact H].
+  - destruct (f_close n p st); [apply timely_after; exact H | reflexivity].
+Qed.
+
+Theorem early_timely : forall n p h, early_morphisms p h = true -> timely n p h = true.
+Proof.
+  intros n p h H. unfold early_morphisms in H. unfold timely. apply andb_true_iff in H. destruct H as [H1 H2].
+  rewrite H1. cbn [andb]. apply timely_before; [reflexivity | exact H2].
+Qed.
+
 (* what recompute_model_indices computes: `all` is `own` pushed along every path of morphisms *)
 Theorem recompute_inherit : forall a b, f_recompute a = Some b ->
   (forall r m' xs, In (r, m' :: xs) (all_new b) <-> exists m, In (r, m :: xs) (own_new a) /\ path (f_edges a) m m') /\
